@@ -193,12 +193,16 @@ def register(claim, na):
         "duplicates, terms of different widths, the empty sum) whose coefficients are symbolic complex values: the conjugate denotes the adjoint, "
         "is_hermitian returns True only for (near-)real coefficient maps and False only when some coefficient has an imaginary part, reversing once "
         "re-indexes q -> n-1-q for n in {default, width, width+1, width+2} and twice is the identity, too few qubits are rejected, arguments untouched. "
-        "The conversions through scipy.sparse or text (get_sparse_operator incl. identity padding and the zero operator, get_pauliop_from_matrix round "
-        "trips, expectation/get_expectation_value incl. non-Hermitian operators) are NOT decided by the solver: they run as ground instances against the "
-        "verifier's dense tensor-product oracle.",
-        "Claimed by the solver only for the three symbolic clauses; the sparse/expansion/expectation clauses are ground numeric comparisons (all Pauli "
-        "strings on <= 3 qubits x paddings, 2x2..8x8 matrices, random states), stated as such in evidence.",
-        "SymTrace path exploration with z3 for the coefficient-level clauses; ground numeric oracle for scipy.sparse/text clauses",
+        "get_pauliop_from_matrix runs on generic matrices whose every entry is a pair of real unknowns (2x2, 4x4; complex, Hermitian-tied, real; 8x8 real "
+        "in the thorough tier) up to its final hand-over, and z3 decides sum_i coeff_i * P(label_i) = M entry by entry for all entries. "
+        "expectation() (row and column vectors) and get_expectation_value (both reverse flags, through the real Wavefunction constructor under the "
+        "path condition norm = 1) run on states whose amplitudes are all symbolic; z3 decides value = <psi|M|psi> with M the verifier's tensor-product "
+        "matrix (bit-reversed for reverse_operator=True). get_sparse_operator itself (identity padding, zero operator) and the text hand-over in "
+        "get_pauliop_from_coeffs_and_labels are NOT decided by the solver: ground instances against the dense tensor-product oracle.",
+        "Stubs: in the symbolic-state instances the scipy matrix is the one the real get_sparse_operator returns for the concrete operator and only its "
+        "mat-vec is the dense product; in the expansion instances the last call (coefficients formatted into text) is intercepted. Ground numeric "
+        "comparisons (all Pauli strings on <= 3 qubits x paddings, 2x2..8x8 matrices, random states, coefficient/label vectors) are counted apart.",
+        "SymTrace path exploration with z3 (coefficients, matrix entries and amplitudes symbolic); ground numeric oracle for the scipy.sparse construction and text clauses",
         "DESIGN.md §1 E2, §2 C09",
     )
     claim(
